@@ -11,6 +11,15 @@ LEXICAL = [
 ]
 
 
+# terminals with different priorities that never match at the same position: the priorities
+# must not matter (they order the scan and may cut it short, nothing else)
+PRIO_DISJOINT = [
+    ("prio_ab", "S: X S | X; X: A | B;\nterminals\nA: 'a' {15};\nB: 'b' {5};", "ab"),
+    ("prio_num", "S: N S | N; N: NUM | 'a' | W;\nterminals\nNUM: /[0-9]+/ {5};\nW: /[x-z]+/ {12};", "a1x"),
+    ("prio_list", "S: S 'a' | S B | 'a';\nterminals\nB: 'b' {3};", "ab"),
+]
+
+
 def sk_ws(w, ws=WS):
     def sk(p):
         while p < len(w) and w[p] in ws:
@@ -43,7 +52,7 @@ def worker(job):
     out["stop"] = impl.stop_id(gi)
     out["table"] = impl.dump_table(p.table, gi)
     out["plain"] = all(pr.prior == 10 and pr.assoc == 0 for pr in g.productions) and \
-        all(t.prior == 10 for t in gi.terms)
+        (all(t.prior == 10 for t in gi.terms) or bool(opts.get("disjoint_prio")))
     for w in inputs:
         c = {"input": w, "rx": impl.rx_matrix(gi, w)}
         try:
@@ -196,6 +205,10 @@ def gen_jobs(rng, quick, opts_list, with_lexical=True, nrand=None, maxlen=None, 
         ins = [mk(k) for k in ((11, 13) if quick else (11, 12, 13, 14, 16))]
         jobs.append((name, text, ins, opts_list[0]))
     if with_lexical:
+        for name, text, alpha in PRIO_DISJOINT:
+            inputs = list(gramgen.all_strings(list(alpha), 4 if quick else 5))
+            for o in opts_list:
+                jobs.append((name, text, inputs, dict(o, disjoint_prio=True)))
         for name, text, alpha in LEXICAL:
             inputs = list(gramgen.all_strings(list(alpha), 4 if quick else 5))
             for o in opts_list:
